@@ -96,7 +96,7 @@ theorem bindObjectProp_var {n : Nat} {σ : State} {b : Addr} {m : ObjMap} {v : S
     (hk : pname ≠ c!"_") (hb : σ.getObj b = some m) (hv : objGet pname m = some v) :
     bindObjectProp (n + 2) σ sc names (.mk (.Var x) l) b pname ploc decl = bindNextName 0 σ sc names x l v none decl := by
   rw [bindObjectProp]
-  simp only [hk, if_false, hb, hv]
+  simp only [hb, hv]
   rw [bindNext_var, bindNextName_fuel _ 0]
 
 /-- a missing property is a located error, whatever the target -/
@@ -105,7 +105,7 @@ theorem bindObjectProp_missing {n : Nat} {σ : State} {b : Addr} {m : ObjMap} (s
     (hk : pname ≠ c!"_") (hb : σ.getObj b = some m) (hv : objGet pname m = none) :
     bindObjectProp (n + 1) σ sc names lhs b pname ploc decl = errAt ploc (Leaf.PropNotFound pname) σ := by
   rw [bindObjectProp]
-  simp only [hk, if_false, hb, hv]
+  simp only [hb, hv]
 
 theorem evalToStr_lit (n : Nat) (σ : State) (sc : List Addr) (d : List Char) (k : List Char) (lk : Loc)
     (hname : utf8Decode (utf8Encode k) = .ok k) :
@@ -125,7 +125,7 @@ theorem bindObject_named_step {n : Nat} {σ : State} {b : Addr} {m : ObjMap} {v 
   | short x l =>
     simp only [NamedProp.item, NamedProp.key, NamedProp.var] at *
     rw [bindObject]
-    simp only [Bool.false_eq_true, if_false, Expr.raw, Expr.loc]
+    simp only [Bool.false_eq_true, if_false, Expr.raw, Expr.loc, hk]
     rw [bindObjectProp_var sc names x l x l decl hk hb hv]
     rfl
   | pair k lk x l =>
